@@ -6,6 +6,7 @@ import (
 	"fmt"
 	"go/token"
 	"go/types"
+	"sort"
 	"strings"
 
 	"golang.org/x/tools/go/ssa"
@@ -16,10 +17,10 @@ func init() {
 		ID:    "C05",
 		Title: "Errors at any point are contained by protected calls and leave state intact",
 		Explanation: "Decided: R05-restore — in each recover() arm of PCall (the outer deferred closure and the inner one that protects the error handler) every path from the recovered-panic test to the closure's return restores the call-stack pointer to the value captured before the call, re-derives currentFrame, closes up-values at and reclaims registers down to the captured base (R03-close shared), and LState.Panic is restored from the captured old value on every path, success or failure; the captured values are single-assignment cells defined before the call; the handler call is not inside a loop (runs once) and precedes the restoration; " +
-			"R05-convert — no panic instruction is reachable inside PCall's recover arms, foreign panics are converted to ApiErrorPanic, threadRun re-panics only when there is no parent thread, the deferred recover is installed before the call, and DoString/DoFile/GPCall/protected CallByParam reach execution only through PCall; R05-raise — raiseError/Error reach the panic through LState.Panic after pushing the error object, and every Lua-level error entry (error, assert) goes through them; R05-handlerarm — inside PCall's recovery closure every call that can itself raise a Lua error (pushing the handler can overflow the registry, the handler can fail) runs after the inner recover has been deferred, so a second failure is still delivered to this protected call; R17-where shared — the position prefix is read at Pc-1 only when Pc > 0 (an error raised before a frame executed anything must not index -1 and escape as a Go panic). " +
+			"R05-convert — no panic instruction is reachable inside PCall's recover arms, foreign panics are converted to ApiErrorPanic, threadRun re-panics only when there is no parent thread, the deferred recover is installed before the call, and DoString/DoFile/GPCall/protected CallByParam reach execution only through PCall; R05-raise — raiseError/Error reach the panic through LState.Panic after pushing the error object, and every Lua-level error entry (error, assert) goes through them; R05-handlerarm — inside PCall's recovery closure every call that can itself raise a Lua error (pushing the handler can overflow the registry, the handler can fail) runs after the inner recover has been deferred, so a second failure is still delivered to this protected call; R05-tracesafe — the traceback code (stackTrace and its static callees in the package) runs inside PCall's recovery closure but outside its inner recover, so a Go run-time panic there leaves PCall: every slice/string index in it is guarded by a length test on the path (or listed with the invariant that bounds it); R17-where shared — the position prefix is read at Pc-1 only when Pc > 0 (an error raised before a frame executed anything must not index -1 and escape as a Go panic). " +
 			"NOT decided: 'delivered exactly once', side-effect prefix, later behaviour — trace properties of executions.",
 		Trusted: []string{"a deferred closure runs on every exit of its function (Go semantics)"},
-		Rules:   []func(*Ctx){ruleRestore, ruleConvert, ruleRaise, ruleClose, ruleWhere, ruleHandlerArm},
+		Rules:   []func(*Ctx){ruleRestore, ruleConvert, ruleRaise, ruleClose, ruleWhere, ruleHandlerArm, ruleTraceSafe},
 	})
 }
 
@@ -560,3 +561,140 @@ func ruleHandlerArm(c *Ctx) {
 		c.check(g.Dominates(inner, in), R, key, p.ipos(in), "runs under the inner recover", fmt.Sprintf("PCall's recovery closure calls %s, which can raise a Lua error, before its inner recover is deferred: the second error unwinds past this protected call (xpcall with a full registry: the overflow raised by pushing the handler reaches the next enclosing pcall or DoString)", via))
 	})
 }
+
+// ruleTraceSafe: PCall's recovery closure calls ls.stackTrace(0) outside any recover. An index out of
+// range in stackTrace or its callees therefore turns a caught Lua error into a Go panic that leaves
+// PCall/DoString (F34: name[0] of an empty call-site name). Every index operation in that code must be
+// dominated by a length guard; the ones bounded by an interpreter invariant are listed.
+var traceIndexTrusted = map[string]string{
+	"(*LState).where:DbgSourcePositions": "Pc-1 with Pc > 0 tested (R17-where:pc-guard) and Pc <= len(Code) == len(DbgSourcePositions) by construction of the line table (R17 parallel arrays)",
+}
+
+func ruleTraceSafe(c *Ctx) {
+	const R = "R05-tracesafe"
+	c.floor(R, 2)
+	p := c.P
+	root := c.need(R, "lua", "(*LState).stackTrace")
+	if root == nil {
+		return
+	}
+	// static callees inside the package
+	seen := map[*ssa.Function]bool{root: true}
+	work := []*ssa.Function{root}
+	for len(work) > 0 {
+		f := work[len(work)-1]
+		work = work[:len(work)-1]
+		allInstrs(f, func(in ssa.Instruction) {
+			if sc := staticCallee(in); sc != nil && sc.Pkg != nil && sc.Pkg.Pkg.Path() == luaPath && sc.Blocks != nil && !seen[sc] {
+				seen[sc] = true
+				work = append(work, sc)
+			}
+		})
+	}
+	var fns []*ssa.Function
+	for f := range seen {
+		fns = append(fns, f)
+	}
+	sort.Slice(fns, func(i, j int) bool { return fname(fns[i]) < fname(fns[j]) })
+	for _, fn := range fns {
+		g := p.G(fn)
+		n := 0
+		allInstrs(fn, func(in ssa.Instruction) {
+			var x, idx ssa.Value
+			switch v := in.(type) {
+			case *ssa.IndexAddr:
+				x, idx = v.X, v.Index
+			case *ssa.Index:
+				x, idx = v.X, v.Index
+			default:
+				return
+			}
+			if !g.Live(in) {
+				return
+			}
+			// fixed-size arrays with a constant index are checked by the compiler
+			if k, ok := constInt(idx); ok {
+				t := x.Type().Underlying()
+				if pt, ok := t.(*types.Pointer); ok {
+					t = pt.Elem().Underlying()
+				}
+				if at, ok := t.(*types.Array); ok && k < at.Len() {
+					return
+				}
+			}
+			n++
+			c.Sites++
+			coll := shortKey(vkey(x))
+			key := fmt.Sprintf("%s:index#%d", fname(fn), n)
+			if guarded, how := indexGuarded(g, in, x, idx); guarded {
+				c.ok(R, key, p.ipos(in), how)
+				return
+			}
+			for tk, why := range traceIndexTrusted {
+				parts := strings.SplitN(tk, ":", 2)
+				if parts[0] == fname(fn) && strings.Contains(coll, parts[1]) {
+					c.okT(R, key, p.ipos(in), "listed: "+why)
+					return
+				}
+			}
+			c.bad(R, key, p.ipos(in), fmt.Sprintf("%s indexes %s[%s] without a length test on the path; it runs inside PCall's recovery closure outside the inner recover (PCall → stackTrace → …), so an index out of range there turns the error being delivered into a Go panic that leaves PCall/DoString", fname(fn), coll, shortKey(vkey(idx))))
+		})
+	}
+}
+
+// indexGuarded: the path condition at 'at' implies 0 <= idx < len(x) by one of the recognised forms.
+func indexGuarded(g *PCFG, at ssa.Instruction, x, idx ssa.Value) (bool, string) {
+	xk := vkey(x)
+	isLenOfX := func(v ssa.Value) bool {
+		cl, ok := stripConv(v).(*ssa.Call)
+		if !ok {
+			return false
+		}
+		if b, ok := cl.Call.Value.(*ssa.Builtin); !ok || b.Name() != "len" {
+			return false
+		}
+		return vkey(cl.Call.Args[0]) == xk
+	}
+	c, isConst := constInt(idx)
+	for _, cd := range g.CondsAtInstr(at) {
+		b, ok := cd.V.(*ssa.BinOp)
+		if !ok {
+			continue
+		}
+		op := b.Op
+		if !cd.Sense {
+			op = negate(op)
+		}
+		l, r := b.X, b.Y
+		if isLenOfX(r) && !isLenOfX(l) {
+			l, r = r, l
+			op = flip(op)
+		}
+		if isLenOfX(l) {
+			// len(x) op r
+			if vkey(stripConv(r)) == vkey(stripConv(idx)) && op == token.GTR {
+				return true, "guarded by idx < len(x)"
+			}
+			if k, ok := constInt(r); ok && isConst {
+				switch {
+				case op == token.GTR && k >= c, op == token.GEQ && k >= c+1, op == token.NEQ && k == 0 && c == 0, op == token.EQL && k > c:
+					return true, fmt.Sprintf("guarded by a length test that implies len > %d", c)
+				}
+			}
+			continue
+		}
+		// s != "" for s[0]
+		if isConst && c == 0 && op == token.NEQ {
+			if (vkey(b.X) == xk && isEmptyStr(b.Y)) || (vkey(b.Y) == xk && isEmptyStr(b.X)) {
+				return true, "guarded by s != \"\""
+			}
+		}
+		// idx < len(x) with idx on the left
+		if vkey(stripConv(b.X)) == vkey(stripConv(idx)) && isLenOfX(b.Y) && op == token.LSS {
+			return true, "guarded by idx < len(x)"
+		}
+	}
+	return false, ""
+}
+
+func isEmptyStr(v ssa.Value) bool { s, ok := constStr(v); return ok && s == "" }
